@@ -15,6 +15,7 @@
  *     With BLSHIM_STDIO=1 every write to descriptor 1 or 2 (a line of the subject's output) is a
  *     counted operation of kind "out" too, so that kill/sig directives can be placed between two
  *     lines of output; fail/short/wfail never apply to them.
+ *        rfail:K:ERRNO  persistent rename failure: counted op K and every later counted rename fails
  *        sig:K:NUM      signal NUM delivered (to the thread about to issue op K, so that the
  *                       handler has run before the operation starts) immediately before op K
  *
@@ -49,7 +50,7 @@
 #define MAX_FD 4096
 #define TRACE_FD 1000
 
-enum { D_FAIL = 1, D_SHORT, D_KILL, D_SIG, D_WFAIL };
+enum { D_FAIL = 1, D_SHORT, D_KILL, D_SIG, D_WFAIL, D_RFAIL };
 struct directive { int type; long k; int arg; };
 
 static char roots[MAX_ROOTS][PATH_MAX];
@@ -59,6 +60,8 @@ static struct directive plan[MAX_PLAN];
 static int n_plan;
 static long wfail_from; /* 0 = none */
 static int wfail_errno;
+static long rfail_from; /* 0 = none */
+static int rfail_errno;
 static int trace_fd = -1;
 static long op_counter;  /* counted operations */
 static long seq_counter; /* all traced calls */
@@ -104,6 +107,7 @@ static int errno_by_name(const char *s, size_t n)
         {"EPERM", EPERM}, {"ENOENT", ENOENT}, {"EMFILE", EMFILE}, {"EROFS", EROFS},
         {"EDQUOT", EDQUOT}, {"EINTR", EINTR}, {"EBUSY", EBUSY}, {"ENOMEM", ENOMEM},
         {"EEXIST", EEXIST}, {"EISDIR", EISDIR}, {"ENOTDIR", ENOTDIR}, {"EFBIG", EFBIG},
+        {"ENOTEMPTY", ENOTEMPTY}, {"ETXTBSY", ETXTBSY},
         {"EINVAL", EINVAL}, {"ENOSYS", ENOSYS}, {"EOPNOTSUPP", EOPNOTSUPP}, {"EAGAIN", EAGAIN},
     };
     for (size_t i = 0; i < sizeof tab / sizeof tab[0]; i++)
@@ -188,16 +192,18 @@ static void shim_init(void)
         else if (!strncmp(p, "kill:", 5)) { d.type = D_KILL; p += 5; }
         else if (!strncmp(p, "sig:", 4)) { d.type = D_SIG; p += 4; }
         else if (!strncmp(p, "wfail:", 6)) { d.type = D_WFAIL; p += 6; }
+        else if (!strncmp(p, "rfail:", 6)) { d.type = D_RFAIL; p += 6; }
         else break;
         d.k = parse_l(&p);
         if (*p == ':') {
             p++;
             const char *e = p; while (*e && *e != ';') e++;
-            if (d.type == D_FAIL || d.type == D_WFAIL) d.arg = errno_by_name(p, (size_t)(e - p));
+            if (d.type == D_FAIL || d.type == D_WFAIL || d.type == D_RFAIL) d.arg = errno_by_name(p, (size_t)(e - p));
             else { const char *q = p; d.arg = (int)parse_l(&q); }
             p = e;
         }
         if (d.type == D_WFAIL) { wfail_from = d.k; wfail_errno = d.arg ? d.arg : EIO; }
+        else if (d.type == D_RFAIL) { rfail_from = d.k; rfail_errno = d.arg ? d.arg : EIO; }
         else plan[n_plan++] = d;
         while (*p == ';') p++;
     }
@@ -488,6 +494,7 @@ int fchmod(int fd, mode_t mode)
     char a1[PATH_MAX], a2[PATH_MAX]; abs_path(d1, p1, a1); abs_path(d2, p2, a2); \
     int counted = under_roots(a1) || under_roots(a2), fe, sw; \
     long k = before_op(counted, &fe, &sw); \
+    if (!fe && counted && rfail_from && k >= rfail_from && kindstr[0] == 'r' && kindstr[1] == 'e') fe = rfail_errno; \
     if (fe) { errno = fe; trace_line(k, kindstr, -1, 0, -1, fe, "fail", a1, a2); return -1; } \
     int r = CALL; int e = errno; \
     trace_line(k, kindstr, -1, 0, r, r < 0 ? e : 0, "", a1, a2); \
